@@ -32,6 +32,11 @@ var verifFragmentContexts = []verifCtx{
 	{Tag: "svg", NS: "svg"}, {Tag: "foreignObject", NS: "svg"}, {Tag: "desc", NS: "svg"}, {Tag: "title", NS: "svg"}, {Tag: "path", NS: "svg"}, {Tag: "g", NS: "svg"}, {Tag: "script", NS: "svg"},
 	{Tag: "math", NS: "math"}, {Tag: "mi", NS: "math"}, {Tag: "mo", NS: "math"}, {Tag: "mtext", NS: "math"}, {Tag: "ms", NS: "math"}, {Tag: "mn", NS: "math"}, {Tag: "mrow", NS: "math"},
 	{Tag: "annotation-xml", NS: "math"}, {Tag: "annotation-xml", NS: "math", Attr: []Attribute{{Key: "encoding", Val: "text/html"}}}, {Tag: "annotation-xml", NS: "math", Attr: []Attribute{{Key: "encoding", Val: "application/xhtml+xml"}}},
+	// foreign elements that share their local name with an HTML element the parser treats
+	// specially (what Parse produces for <svg><template>, <math><table> ...)
+	{Tag: "template", NS: "svg"}, {Tag: "template", NS: "math"}, {Tag: "table", NS: "svg"}, {Tag: "tr", NS: "math"}, {Tag: "td", NS: "svg"}, {Tag: "select", NS: "svg"},
+	{Tag: "head", NS: "math"}, {Tag: "body", NS: "svg"}, {Tag: "html", NS: "svg"}, {Tag: "frameset", NS: "math"}, {Tag: "textarea", NS: "svg"}, {Tag: "style", NS: "svg"}, {Tag: "plaintext", NS: "math"},
+	{Tag: "colgroup", NS: "svg"}, {Tag: "caption", NS: "math"}, {Tag: "form", NS: "svg"},
 }
 
 func (x verifCtx) node() *Node {
